@@ -744,7 +744,10 @@ def _composite_keystone_aperture(x, y, center_circle_diameter,
             c3 = (outer_radius, lo)
             c4 = (outer_radius, hi)
             c5 = (outer_radius, mid)
-            arr = np.array([c1, c2, c3, c4, c5])
+            # the outer arc bulges beyond the corners wherever it crosses a
+            # coordinate axis inside the segment, those points bound it too
+            axes = [(outer_radius, a) for a in np.arange(-2, 6) * (np.pi/2) if lo < a < hi]  # NOQA
+            arr = np.array([c1, c2, c3, c4, c5] + axes)
             rr = arr[:, 0]
             tt = arr[:, 1]
             xx, yy = polar_to_cart(rr, tt)
@@ -802,7 +805,7 @@ def _composite_keystone_aperture(x, y, center_circle_diameter,
             right_edges.append(redge)
             radial_diameters.append(outer_radius-inner_radius)
             idods.append((xxc, yyc))
-            corners.append((xx, yy))
+            corners.append((xx[:5], yy[:5]))
             segment_id += 1
 
             # now make the spider between this arc and the next
